@@ -90,6 +90,10 @@ def d_unit_and_monitor(ctx, n):
         if r["exc"] is not None:
             ctx.blocked.append(dict(spec=dunit.spec_brief(spec), exc=r["exc"][:2]))
             continue
+        hm = dunit.history_mismatch(r["obs"][-1]) if r["obs"] else None
+        if hm:
+            ctx.violation(dict(kind="history-mismatch", optimizer=spec["name"]), dict(spec=dunit.spec_full(spec)), "%s: %s" % (spec["name"], hm))
+            continue
         if spec["read_cost"] == 0:
             o = r["obs"][0]
             ctx.monitor_runs += 1
